@@ -59,6 +59,6 @@ pub fn exec(sc: &Scenario) -> Outcome {
 
 pub static DEF: CheckDef = CheckDef {
     id: "SMOKE", level: "exploration", gen, exec, nontrivial: |o| o.counters.get("cmds").copied().unwrap_or(0) >= 10,
-    rule: "smoke workload", quick_budget_s: 10.0, thorough_budget_s: 60.0, quick_max_runs: 2000, thorough_max_runs: 100000, exhaustive: false,
+    rule: "smoke workload", quick_budget_s: 10.0, thorough_budget_s: 60.0, quick_max_runs: 2000, thorough_max_runs: 100000, exhaustive: false, exhaustive_after: |_| 0,
     real: REAL_WHOLE_SERVER, stub: STUB_WHOLE_SERVER, assumptions: ASSUME_COMMON,
 };
